@@ -116,7 +116,76 @@ def run(ctx):
             rd.bad(f, "address-order", "comparator orders elements by their addresses (`%s`): the result depends on the allocator" % bad[1], bad[0].get("line"))
         else:
             rd.ok(f, "address-order", "comparator never compares or subtracts the element addresses themselves", f.line)
-    return [ra, rb, rc, rd]
+    return [ra, rb, rc, rd, r12_2(prog, scope)]
+
+
+TERMINATING_CALLS = {"strcpy", "strcat", "snprintf", "sprintf", "vsnprintf", "vsprintf"}
+
+
+def r12_2(prog, scope):
+    """Strings assembled character by character are terminated by the code that assembled them.
+
+    In every compiler function that returns a character pointer, each store of a non-NUL character through a
+    `char *` (`*p++ = c`, `*p = c`) is followed on every path to a `return <pointer expression>` by a NUL store
+    through a `char *` or by a terminating libc string call.  Otherwise what follows the last character is
+    whatever the (reused, static or heap) buffer held before -- text from an earlier call, i.e. from a value printed
+    earlier in this run -- and the text written into a generated file depends on the order in which modules were
+    processed (or, with an uninitialised allocation, on the heap)."""
+    from ..model import const_of
+    r = Rule("R12.2", "a string built character by character is NUL-terminated by its builder on every path: no stale buffer content can follow it", floor=8)
+    for k in sorted(scope):
+        f = prog.funcs[k]
+        if not ("char" in f.ret_type and f.ret_type.rstrip().endswith("*")):
+            continue
+        if f.relfile.endswith(("asn1p_y.c", "asn1p_l.c")):
+            continue    # bison/flex skeleton code (yystpcpy copies the terminator inside its loop condition)
+
+        def charstore(e):
+            return e["k"] == "assign" and e.get("deref") and e.get("op") == "=" and e.get("base_type", "").replace("const ", "").strip() in ("char *", "unsigned char *", "uint8_t *")
+        stores = [(b, i, e) for b, i, e in f.events("assign") if charstore(e)]
+        if not stores:
+            continue
+
+        def is_nul(e):
+            return charstore(e) and const_of(e["rhs"]["tree"]) == 0
+        n = 0
+        for b, i, e in sorted(stores, key=lambda x: (x[2].get("line") or 0, x[0].id, x[1])):
+            if is_nul(e):
+                continue
+            n += 1
+            key = "store@%d:%s" % (n, " ".join(e["rhs"]["text"].split())[:24])
+            # forward search: stop at terminators and at further character stores (they are instances of their own)
+            seen, st, hit = set(), [(b.id, i + 1)], None
+            while st and hit is None:
+                bid, pos = st.pop()
+                if (bid, pos) in seen:
+                    continue
+                seen.add((bid, pos))
+                blk = f.blocks[bid]
+                stop = False
+                for j in range(pos, len(blk.ev)):
+                    x = blk.ev[j]
+                    if charstore(x) or (x["k"] == "call" and x.get("callee") in TERMINATING_CALLS):
+                        stop = True
+                        break
+                    if x["k"] == "return":
+                        ex = x.get("expr")
+                        t = strip_casts(ex["tree"]) if ex else None
+                        if ex and "const" not in ex and not (isinstance(t, list) and t and t[0] in ("str", "call", "icall", "cond")):
+                            hit = x
+                        stop = True
+                        break
+                if stop:
+                    continue
+                for s_ in blk.succ:
+                    if s_ is not None:
+                        st.append((s_, 0))
+            if hit is None:
+                r.ok(f, key, "followed by a NUL store / terminating call on every path to a return", e["line"])
+            else:
+                r.bad(f, key, "after `%s = %s` (line %s) the function returns `%s` at line %s without storing a terminator: the text "
+                              "continues with whatever the buffer held before" % (e["lhs"], e["rhs"]["text"], e["line"], hit["expr"]["text"], hit["line"]), e["line"])
+    return r
 
 
 def thorough(ctx):
